@@ -45,6 +45,11 @@ def run(tier):
     # also in a plain release build (no debug assertions, wrapping arithmetic): what a user ships
     plain = vf.build_harness("plain")
     vf.exec_and_validate(chk, plain, "obj", "TV_Obj", rnd, jvms=12, what="call (plain release build)")
+    # large files (vertex counts around 2^8 and 2^16), judged on a summary
+    big = os.path.join(d, "big_cases.ndjson")
+    vf.run_harness(binpath, ["obj", "gen", "--seed", vf.seed(), "--tier", tier, "big"], stdout_path=big)
+    vf.exec_and_validate(chk, binpath, "obj", "TV_ObjBig", big, jvms=2, what="large file")
+    vf.exec_and_validate(chk, plain, "obj", "TV_ObjBig", big, jvms=2, what="large file (plain release build)")
     chk.cov["distinct_nontrivial"] = chk.cov["traces_validated_against_impl"]
     chk.cov["trusted_base"] = ["TLC + CommunityModules (Json, IOUtils)", "harness/src/obj.rs recorder"]
     chk.assumptions = ["coordinates are judged exactly for literals with <= 6 mantissa digits and a one-digit "
